@@ -145,3 +145,89 @@ Definition reg_corr_ok (t : rcase * list robs) : bool := robs_list_eqb (rrun (fs
 Definition reg_chk_ok (t : rcase * list robs) : bool := chk_C13 t.
 Definition reg_model (c : rcase) : list robs := rrun c.
 Definition kv_model_chk_reg (chk : rcase * list robs -> bool) (t : rcase * list robs) : bool := chk (fst t, rrun (fst t)).
+
+(* ------------------------------------------------------------------------------------------ *)
+(* family regc: goroutines open, write through and close handles of ONE bucket at the same time.  Every registry
+   action is atomic under cluster.lock and every write under bucket.mutex; hooks inside those critical sections
+   record the order in which the calls took effect.  That order, as a sequential history, is the input; what is
+   compared is the answer of every call and the final observation (every handle's view, the registered names, the
+   directories) plus the registry's reference count for the name.                                              *)
+Record regc_obs := mkRegcObs {
+  rco_resps : list rresp;       (* the answers, in the order in which the calls took effect *)
+  rco_final : robs;             (* observation when all goroutines are done (its ro_resp is not used) *)
+  rco_count : N                 (* cluster.bucketCount of the bucket's name *)
+}.
+
+Definition regc_name (c : rcase) : string :=
+  match rc_ops c with ROpen _ _ n _ :: _ => n | _ => "" end.
+
+Definition regc_model (c : rcase) : regc_obs :=
+  let s := rfinal rstate0 (rc_ops c) in
+  mkRegcObs (map ro_resp (rrun c)) (observe s c RROk) (count_of s (regc_name c)).
+
+Definition robs_same (a b : robs) : bool :=
+  views_eqb (ro_views a) (ro_views b) && names_eqb (ro_names a) (ro_names b) && dirs_eqb (ro_dirs a) (ro_dirs b).
+
+Definition regc_corr_ok (t : rcase * regc_obs) : bool :=
+  let m := regc_model (fst t) in
+  (if list_eq_dec rresp_eq_dec (rco_resps m) (rco_resps (snd t)) then true else false)
+  && robs_same (rco_final m) (rco_final (snd t))
+  && (rco_count m =? rco_count (snd t)).
+
+(* the property, on what was observed: the reference count is the number of handles that were opened and not closed;
+   a handle that was closed answers bucket-closed, one that was not works; all working handles show the same data; every
+   value shown was written by an acknowledged write, and a key written once (acknowledged) shows that value *)
+Fixpoint closed_handles (ops : list rop) : list N :=
+  match ops with
+  | [] => []
+  | RClose h :: r | RCloseOpen h _ _ _ _ :: r => h :: closed_handles r
+  | _ :: r => closed_handles r
+  end.
+
+Fixpoint writes_acked (ops : list rop) (resps : list rresp) : list (string * string) :=
+  match ops, resps with
+  | RWrite _ k v :: r, RROk :: rr => (k, v) :: writes_acked r rr
+  | _ :: r, _ :: rr => writes_acked r rr
+  | _, _ => []
+  end.
+
+Fixpoint shown_was_written (keys : list string) (vals : list (option string)) (ws : list (string * string)) : bool :=
+  match keys, vals with
+  | k :: kr, ov :: vr =>
+      let mine := filter (fun w => String.eqb (fst w) k) ws in
+      match ov with
+      | None => match mine with [] => true | _ => false end
+      | Some v => existsb (fun w => String.eqb (snd w) v) mine
+      end && shown_was_written kr vr ws
+  | [], [] => true
+  | _, _ => false
+  end.
+
+Definition regc_chk_ok (t : rcase * regc_obs) : bool :=
+  let c := fst t in let ob := snd t in
+  let views := ro_views (rco_final ob) in
+  let closed := closed_handles (rc_ops c) in
+  let is_closed (i : nat) := existsb (N.eqb (N.of_nat i)) closed in
+  let idx := seq 0 (List.length views) in
+  let live := filter (fun i => negb (is_closed i)) idx in
+  (rco_count ob =? N.of_nat (List.length live))
+  && forallb (fun i => match nth_error views i with
+                       | Some VClosed => is_closed i
+                       | Some (VData _) => negb (is_closed i)
+                       | _ => false
+                       end) idx
+  && match live with
+     | [] => true
+     | i0 :: _ => forallb (fun i => match nth_error views i0, nth_error views i with
+                                    | Some a, Some b => hview_eqb a b
+                                    | _, _ => false
+                                    end) live
+     end
+  && match live with
+     | i0 :: _ => match nth_error views i0 with
+                  | Some (VData vals) => shown_was_written (rc_keys c) vals (writes_acked (rc_ops c) (rco_resps ob))
+                  | _ => true
+                  end
+     | [] => true
+     end
+  && (List.length (rco_resps ob) =? List.length (rc_ops c))%nat.
